@@ -248,6 +248,24 @@ def rand_leftcorner_grammar(rng, boolean=True):
     return {"S": rng.randrange(k), "nT": nT, "rules": rules}
 
 
+def rand_sharedcorner_grammar(rng, boolean=False):
+    """finite language; two nonterminals with a common left corner D are awaited together after one terminal and
+    separately after others:  S -> z A u | z B v | x A | y B,  A -> D r,  B -> D s,  D -> d"""
+    W = lambda: (True if boolean else fs(rng.choice(WEIGHTS[:6])))
+    nT = 3
+    t = lambda: ["T", rng.randrange(nT)]
+    z, x, y = rng.sample(range(nT), 3)
+    rules = [[W(), 0, [["T", z], ["N", 1], t()]], [W(), 0, [["T", z], ["N", 2], t()]], [W(), 0, [["T", x], ["N", 1]]], [W(), 0, [["T", y], ["N", 2]]],
+             [W(), 1, [["N", 3], t()]], [W(), 2, [["N", 3], t()]], [W(), 3, [t()]]]
+    if rng.random() < 0.5:
+        rules.append([W(), 3, [["N", 4]]])
+        rules.append([W(), 4, [t(), t()]])
+    if rng.random() < 0.4:
+        rules.append([W(), 1, [t()]])
+    rng.shuffle(rules)
+    return {"S": 0, "nT": nT, "rules": rules}
+
+
 def rand_mutual_leftrec_grammar(rng, boolean=True):
     """mutual LEFT recursion through 2-3 nonterminals (it survives the removal of unary cycles), each member with its own
     further left corners, and start rules that reach different members of the cycle after different terminals"""
